@@ -138,6 +138,7 @@ def finish(mod, pid, tier, seed, results, t0, a):
             agg[k] += R.get(k, 0) or 0
         for k in stats:
             stats[k] += (R.get('stats') or {}).get(k, 0) or 0
+        extra['max_query_s'] = max(extra.get('max_query_s', 0.0), (R.get('stats') or {}).get('max_query_s', 0.0) or 0.0)
         for k, v in (R.get('triggers') or {}).items():
             triggers[k] = triggers.get(k, 0) + v
         funcs.update(R.get('functions') or [])
@@ -202,6 +203,7 @@ def finish(mod, pid, tier, seed, results, t0, a):
             queries=stats['queries'] + int(extra.get('queries', 0)),
             solver_s=round(stats['solver_s'] + float(extra.get('solver_s', 0.0)), 3),
             unknown=stats['unknown'] + int(extra.get('unknown', 0)),
+            slowest_query_s=round(float(extra.get('max_query_s', 0.0)), 3),
             cross_solver=dict(every=int(os.environ.get('VERIF_CROSS_EVERY', '0') or 0), agree=stats['cross_agree'],
                               disagree=stats['cross_disagree'], cvc5_undecided=stats['cross_undecided']),
             configurations=len(results),
